@@ -48,11 +48,11 @@ def window_ok(e, z_pred, starts_pred=None, width_pred=None):
     """lo = starts[z], hi = lo + width."""
     lo, hi = e['lo'], e['hi']
     b = m(('call~', '::index', ('$starts', '$z')), lo) or m(('idx', '$starts', '$z'), lo)
-    starts_pred = starts_pred or (lambda x: 'starts' in X.canon(x))
+    starts_pred = starts_pred or (lambda x: m(('fld', ('p', 1), 'starts'), x) is not None)
     if b is None or not z_pred(b['$z']) or not starts_pred(b['$starts']):
         return False
     h = m(('bin', 'Add', lo, '$w'), hi)
-    width_pred = width_pred or (lambda x: 'width' in X.canon(x))
+    width_pred = width_pred or (lambda x: m(('fld', ('p', 1), 'width'), x) is not None)
     return h is not None and width_pred(h['$w'])
 
 
@@ -330,16 +330,18 @@ def r165(db, ctx):
     u = db.fn(f'{S}::update_holdout')
     R = X.Rec(u)
     sc = [(bi, t) for bi, t in u.calls() if (u.callee_short(t) or '').endswith('Score::score_into')]
-    st = [s for s in X.stores(u, R) if 'starts' in X.canon(norm(s['target']))]
+    st = [s for s in X.stores(u, R) if X.canon(('fld', ('p', 1), 'starts')) in X.canon(norm(s['target']))]
     ok = False
     if len(sc) == 1 and len(st) == 1:
         seq = norm(R.operand(sc[0][1]['args'][2]))
         tg = norm(st[0]['target'])
         v = norm(st[0]['value'])
-        zi = m(('idx', '_', ('p', 2)), tg) or m(('call~', 'index_mut', ('_', ('p', 2))), tg)
-        seq_ok = 'sequences' in X.canon(seq) and 'arg2' in X.canon(seq)
-        val_ok = v[0] == 'call' and v[1].endswith('Distribution::sample') and 'WeightedIndex::new' in X.canon(v) and 'StripedScores::iter' in X.canon(v) and 'arg1.scores' in X.canon(v)
-        buf_ok = 'arg1.scores' in X.canon(norm(R.operand(sc[0][1]['args'][3])))
+        zi = True if (m(('call~', 'index_mut', (('fld', ('p', 1), 'starts'), ('p', 2))), tg) is not None or m(('idx', ('fld', ('p', 1), 'starts'), ('p', 2)), tg) is not None) else None
+        seq_ok = (m(('idx', ('fld', ('fld', ('p', 1), 'data'), 'sequences'), ('p', 2)), seq) is not None or
+                  m(('call~', '::index', (('fld', ('fld', ('p', 1), 'data'), 'sequences'), ('p', 2))), seq) is not None)
+        # dist.sample(rng) with dist = WeightedIndex::new(self.scores.iter().map(f)): one weight per valid position, in position order
+        val_ok = m(('call~', 'Distribution::sample', (('fld', ('down', ('call~', 'WeightedIndex::new', (('call~', 'Iterator::map', (('call~', 'StripedScores::iter', (('fld', ('p', 1), 'scores'),)), '_')),)), 'Ok'), '0'), '_')), v) is not None
+        buf_ok = norm(R.operand(sc[0][1]['args'][3])) == ('fld', ('p', 1), 'scores')
         ok = zi is not None and seq_ok and val_ok and buf_ok and u.dominates(sc[0][0], st[0]['block'])
     (ctx.ok if ok else ctx.fail)('R16.5', u, 'starts[z] = index sampled among scores.iter() of sequences[z] (L+1-M valid positions)', *([['R1.3: max_index = L+1-M']] if ok else ['resampled start is not an index into the scores of the held-out sequence']))
 
